@@ -84,6 +84,13 @@ func run(c *fw.Ctx) {
 			}
 		}
 	}
+	// Pack and Unpack are functions of (width, input) alone: the same values
+	// or bytes are pushed through every width they fit in turn, in every order
+	// of two widths, so that a result remembered from the previous call (keyed
+	// by the values or bytes but not the width) is seen.
+	if c.Shard == 0 {
+		alternation(c)
+	}
 	c.Bound("widths", "1..4")
 	c.Bound("domain", "every 8-tuple of w-bit values = every w-byte group (2^8 + 2^16 + 2^24 + 2^32)")
 	for w := 1; w <= 4; w++ {
@@ -137,6 +144,47 @@ func run(c *fw.Ctx) {
 	}
 }
 
+// alternation: for every group whose values fit width wa, Pack/Unpack at wa
+// then at wb (and the reverse) for every wb in which the values also fit; all
+// 2^8 and 2^16 groups of width 1 and 2, a stride through widths 3 and 4.
+func alternation(c *fw.Ctx) {
+	buf := make([]byte, 16)
+	n := 0
+	for wa := 1; wa <= 4; wa++ {
+		total := uint64(1) << uint(8*wa)
+		step := uint64(1)
+		if wa >= 3 {
+			step = total/(1<<18) + 1
+			if step%2 == 0 {
+				step++
+			}
+		}
+		for x := uint64(0); x < total; x += step {
+			var vals [8]uint8
+			mask := uint64(1)<<uint(wa) - 1
+			for i := 0; i < 8; i++ {
+				vals[i] = uint8(x >> (uint(wa) * uint(i)) & mask)
+			}
+			for wb := wa + 1; wb <= 4; wb++ {
+				// the same eight values as a group of width wb
+				var y uint64
+				for i := 0; i < 8; i++ {
+					y |= uint64(vals[i]) << (uint(wb) * uint(i))
+				}
+				for _, order := range [][2][2]uint64{{{uint64(wa), x}, {uint64(wb), y}}, {{uint64(wb), y}, {uint64(wa), x}}} {
+					for _, st := range order {
+						if msg := checkOne(int(st[0]), uint32(st[1]), buf); msg != "" {
+							c.Violate(fmt.Sprintf("w%d:%s after a call at another width", st[0], firstWords(msg)), msg+fmt.Sprintf(" (the previous call used the same values at width %d or %d)", wa, wb), "alternation", gcase{int(st[0]), uint32(st[1])})
+						}
+					}
+					n++
+				}
+			}
+		}
+	}
+	c.Count("width_alternation_sequences", int64(n))
+}
+
 func firstWords(s string) string {
 	// key by operation only so that one defect is one violation
 	for i, ch := range s {
@@ -167,6 +215,33 @@ func replay(c *fw.Ctx, kind string, data json.RawMessage) string {
 		}
 		return ""
 	}
+	if kind == "alternation" {
+		// the same eight values at every other width first, then the case itself
+		buf := make([]byte, 16)
+		var vals [8]uint8
+		mask := uint32(1)<<uint(g.Width) - 1
+		fits := uint8(0)
+		for i := 0; i < 8; i++ {
+			vals[i] = uint8(g.X >> (uint(g.Width) * uint(i)) & mask)
+			if vals[i] > fits {
+				fits = vals[i]
+			}
+		}
+		for w := 1; w <= 4; w++ {
+			if w == g.Width || int(fits) >= 1<<uint(w) {
+				continue
+			}
+			var y uint32
+			for i := 0; i < 8; i++ {
+				y |= uint32(vals[i]) << (uint(w) * uint(i))
+			}
+			checkOne(w, y, buf)
+			if msg := checkOne(g.Width, g.X, buf); msg != "" {
+				return msg
+			}
+		}
+		return ""
+	}
 	return checkOne(g.Width, g.X, make([]byte, 16))
 }
 
@@ -176,7 +251,7 @@ func Main() {
 		ID:    "C17",
 		Level: "exploration",
 		Rule: "complete enumeration: for w=1..4 every integer x < 2^(8w) is both a value group (value i = bits [w*i, w*(i+1))) and a byte group (little-endian bytes of x); " +
-			"checked Pack(g)=LE(x), Unpack(LE(x))=g, Unpack(Pack(g))=g, Pack(Unpack(b))=b through the real internal/bitpack; every case is distinct by construction",
+			"checked Pack(g)=LE(x), Unpack(LE(x))=g, Unpack(Pack(g))=g, Pack(Unpack(b))=b through the real internal/bitpack; every case is distinct by construction. The sweep is per width; in addition the same values are pushed through two widths in turn, in both orders (all groups of width 1 and 2, a stride through 3), so a result carried over from the previous call is seen",
 		Assumptions: []string{
 			"the oracle is the closed form 'value i occupies bits [w*i, w*(i+1)) of the little-endian bit string', self-checked against a bit-by-bit packer at start-up",
 			"Pack/Unpack are reached through the verif-tag re-export parquet.VerifPack/VerifUnpack (thin wrappers)",
